@@ -167,6 +167,12 @@ def apply_op(p, model, op, st):
         p.model.run_linearize()
     elif kind == "tot":
         return p.compute_totals(of=model.of, wrt=model.wrt)
+    elif kind == "resetup":
+        # prob.setup() again on the LIVE problem (what a user does to switch mode / allocate complex vectors): the framework calls
+        # every component's setup() a second time on the same instance; inputs go back to their declared defaults
+        p.setup(mode=p._orig_mode)
+        p.final_setup()
+        st.update(k=None, consistent=False, chk=False)
     elif kind == "chk":
         with contextlib.redirect_stdout(io.StringIO()):
             p.check_partials(compact_print=True, out_stream=None)
